@@ -43,5 +43,7 @@ for prop in props:
                                          "detected": c.returncode == 1, "lines": lines[:6]}
                 finally:
                     subprocess.run(["git", "-C", "/repo", "checkout", "--", "."])
+                    # a run against a seeded change must not leave its evidence / replay files behind: restore the committed ones
+                    subprocess.run(["git", "-C", VERIF, "checkout", "--", "evidence"])
             print(sid, meta.get("detection", {}).get("exit"), meta.get("detection", {}).get("detected"))
         json.dump(meta, open(meta_p, "w"), indent=1)
